@@ -2,6 +2,7 @@
   Props/C17.lean — tracing: one record per accepted call to the innermost live tracer, with values.
 -/
 import TrompModel.Props.C16
+import TrompModel.Lemmas.Nested
 
 namespace Tromp.C17
 open Tromp World
@@ -120,5 +121,29 @@ example : (ex.run [.call 0 1 [1], .killtracer 0, .call 0 1 [2], .killtracer 1, .
     [[.ok 0 0, .evalRet 0, .trace 1 0 [1] (.val 7), .result (.val 7)], [],
      [.ok 0 1, .evalRet 1, .trace 1 1 [2] (.threw .std), .result (.threw .std)], [],
      [.ok 0 0, .evalRet 0, .result (.val 7)]] := by decide
+
+/-! ### re-entrant calls -/
+
+/-- **C17, nesting.**  For an accepted call whose side effects call other mock functions, the trace record of the
+    outer call is the last trace record of the operation: every record delivered for a nested call (they are among
+    the events of the side effects) precedes it; it carries the outer arguments and the outer result — the value of
+    the outer RETURN, or the exception that ended the action list, be it thrown by a side effect or by a nested call. -/
+theorem reentrant_outer_record_last (nest : NestMap) (fuel : Nat) (w : World) (o f : Nat) (a : Args) (m : Mock) (e : Nat)
+    (x : Exp) (visited : List Nat) (hl : w.legal (.call o f a) = true) (hm : w.mocks o = some m)
+    (hfind : find (w.expMatches a) w.expOrder (m.active f) = (some e, visited)) (hx : w.exps e = some x)
+    (hc : ¬ (x.hi = 0 ∨ w.order (.exp e) x.seqs = none)) :
+    ∃ (retEvs : List Ev) (res : Outcome),
+      (∀ ev ∈ retEvs, ev = Ev.evalRet e) ∧
+      (callN nest fuel w o f a).2 =
+        visited.flatMap (w.matchLog a) ++ [Ev.ok w.okReporter e] ++
+          (runEffectsN nest fuel e a x.effects 0 (w.bookkeep o f e x m)).2.1 ++ retEvs ++ w.traceEv e a res ++ [.result res] := by
+  rw [callN]
+  simp only [hl, Bool.not_true, Bool.false_eq_true, if_false, hm, hfind, hx, hc]
+  cases (runEffectsN nest fuel e a x.effects 0 (w.bookkeep o f e x m)).2.2 with
+  | some exc => exact ⟨[], .threw exc, by simp, rfl⟩
+  | none =>
+    cases x.ret with
+    | some r => exact ⟨[Ev.evalRet e], r a, by simp, rfl⟩
+    | none => exact ⟨[], .void, by simp, rfl⟩
 
 end Tromp.C17
